@@ -34,6 +34,10 @@ pub struct RHistory {
     pub verbosity: u8,
     pub show_output: bool,
     pub report_time: bool,
+    /// `basic` only: what the same stream produced with `Coloring::Always` (cursor movements,
+    /// line clears and SGR sequences included), for the terminal-screen differential.
+    #[serde(default)]
+    pub term_output: Option<String>,
 }
 
 impl RHistory {
@@ -134,6 +138,7 @@ fn run_reporter_real(plan: &Rc<Plan>) -> Result<RHistory, String> {
         verbosity: w.verbosity,
         show_output: w.show_output,
         report_time: w.report_time,
+        term_output: None,
     })
 }
 
@@ -153,10 +158,25 @@ pub fn run_reporter(plan: &Rc<Plan>) -> Result<RHistory, String> {
     let w = &plan.writer;
     let (sink, buf) = Sink::new(hseed ^ 0x51, w.short_write_pm, w.eintr_pm, &stats);
     let which = reporter_name(plan);
+    let mut term_output = None;
     let (end, payload) = match which {
         "basic" => {
+            // the same stream once more through a writer in terminal mode (step `Started` lines are
+            // printed and later erased with cursor-up / clear-line sequences)
+            let tstats = Rc::new(SinkStats::default());
+            let (tsink, tbuf) = Sink::new(hseed ^ 0x52, 0, 0, &tstats);
+            let twr = writer::Basic::new(tsink, writer::Coloring::Always, w.verbosity);
+            let (tend, tpayload) = drive(&core, twr, writer::basic::Cli { verbose: 0, color: writer::Coloring::Always }, items.clone());
             let wr = writer::Basic::new(sink, writer::Coloring::Never, w.verbosity);
-            drive(&core, wr, writer::basic::Cli { verbose: 0, color: writer::Coloring::Never }, items)
+            let r = drive(&core, wr, writer::basic::Cli { verbose: 0, color: writer::Coloring::Never }, items);
+            if tend == RunEnd::Finished && r.0 == RunEnd::Finished {
+                term_output = Some(String::from_utf8_lossy(&tbuf.borrow()).into_owned());
+                r
+            } else if tend != RunEnd::Finished {
+                (tend, tpayload)
+            } else {
+                r
+            }
         }
         "libtest" => {
             let wr = writer::Libtest::new(sink);
@@ -194,6 +214,7 @@ pub fn run_reporter(plan: &Rc<Plan>) -> Result<RHistory, String> {
         verbosity: w.verbosity,
         show_output: w.show_output,
         report_time: w.report_time,
+        term_output,
     })
 }
 
@@ -692,6 +713,108 @@ fn c14_basic(h: &RHistory, out: &mut Vec<Violation>) {
     if let Some((code, msg)) = diff("plain terminal output", &got, &want) {
         out.push(v(&format!("facts-{code}"), msg).attr("reporter", rep));
     }
+    // terminal mode: what is left on the screen once every cursor movement and line clear has been
+    // applied must be, colours aside, exactly the non-terminal output (no ghost `Started` lines, nothing erased)
+    if let Some(t) = &h.term_output {
+        match emulate_terminal(t) {
+            Err(e) => out.push(v("terminal-malformed", e).attr("reporter", rep)),
+            Ok(screen) => {
+                let trim = |ls: Vec<String>| {
+                    let mut ls = ls;
+                    while ls.last().is_some_and(|l| l.is_empty()) {
+                        ls.pop();
+                    }
+                    ls
+                };
+                let plain = trim(h.output.split('\n').map(str::to_owned).collect());
+                let screen = trim(screen);
+                if plain != screen {
+                    let i = plain.iter().zip(&screen).position(|(a, b)| a != b).unwrap_or(plain.len().min(screen.len()));
+                    out.push(
+                        v(
+                            "terminal-screen-differs",
+                            format!(
+                                "Coloring::Always: the screen after the run differs from the Coloring::Never output at line {i}: screen {:?} vs plain {:?} ({} vs {} lines)",
+                                screen.get(i),
+                                plain.get(i),
+                                screen.len(),
+                                plain.len()
+                            ),
+                        )
+                        .attr("reporter", rep),
+                    );
+                }
+            }
+        }
+    }
+}
+
+/// Minimal terminal: `\n`, `\r`, cursor up/down (`ESC[nA`, `ESC[nB`), erase line (`ESC[2K`), SGR
+/// (`ESC[..m`, ignored). Anything else in an escape sequence is an error. Returns the screen lines.
+pub fn emulate_terminal(s: &str) -> Result<Vec<String>, String> {
+    let mut lines: Vec<Vec<char>> = vec![Vec::new()];
+    let (mut row, mut col) = (0usize, 0usize);
+    let cs: Vec<char> = s.chars().collect();
+    let mut i = 0;
+    while i < cs.len() {
+        let c = cs[i];
+        i += 1;
+        match c {
+            '\n' => {
+                row += 1;
+                col = 0;
+                while lines.len() <= row {
+                    lines.push(Vec::new());
+                }
+            }
+            '\r' => col = 0,
+            '\x1b' => {
+                if cs.get(i) != Some(&'[') {
+                    return Err(format!("terminal: ESC not followed by '[' at char {i}"));
+                }
+                i += 1;
+                let st = i;
+                while i < cs.len() && !cs[i].is_ascii_alphabetic() {
+                    i += 1;
+                }
+                let Some(&fin) = cs.get(i) else { return Err("terminal: unterminated escape sequence".into()) };
+                let arg: String = cs[st..i].iter().collect();
+                i += 1;
+                match fin {
+                    'm' => {}
+                    'A' => {
+                        let n: usize = arg.parse().map_err(|_| format!("terminal: bad cursor-up argument {arg:?}"))?;
+                        if n > row {
+                            return Err(format!("terminal: cursor moved {n} lines up from row {row} (above the first line written)"));
+                        }
+                        row -= n;
+                    }
+                    'B' => {
+                        let n: usize = arg.parse().map_err(|_| format!("terminal: bad cursor-down argument {arg:?}"))?;
+                        row += n;
+                        while lines.len() <= row {
+                            lines.push(Vec::new());
+                        }
+                    }
+                    'K' if arg == "2" => lines[row].clear(),
+                    other => return Err(format!("terminal: unexpected sequence ESC[{arg}{other}")),
+                }
+            }
+            ch => {
+                let l = &mut lines[row];
+                while l.len() < col {
+                    l.push(' ');
+                }
+                if col < l.len() {
+                    l[col] = ch;
+                } else {
+                    l.push(ch);
+                }
+                col += 1;
+            }
+        }
+    }
+    Ok(lines.into_iter().map(|l| l.into_iter().collect()).collect())
 }
 
 // ---------------------------------------------------------------------------------------------
